@@ -51,7 +51,7 @@ def field_case(draw, small=False):
     return {"g": g, "subs": subs, "k": k, "vdims": draw(gen.vdims_strategy(k)) if k <= 4 else None,
             "unit": draw(st.sampled_from(UNITS)), "vals": draw(st.sampled_from(["int", "wide", "wide"])),
             "seed": draw(st.integers(0, 2**31)), "rep": draw(st.sampled_from(REPS)),
-            "extend_scalar": draw(st.booleans()), "save_subregions": draw(st.booleans()),
+            "extend_scalar": draw(st.booleans()), "save_subregions": draw(st.booleans()), "prelude": draw(st.booleans()),
             "ext": draw(st.sampled_from([".ovf", ".omf", ".ohf"]))}
 
 
@@ -109,6 +109,12 @@ def check_roundtrip(case):
     ext_scalar = case["extend_scalar"] and k == 1
     with tempfile.TemporaryDirectory() as tmp:
         path = os.path.join(tmp, "field" + case["ext"])
+        if case.get("prelude") and case["save_subregions"]:
+            # the file name was used before, for a field with other subregions
+            old = df.Field(df.Mesh(region=mesh.region, n=mesh.n,
+                                   subregions={"stale": df.Region(p1=mesh.region.pmin, p2=mesh.region.pmax)}), nvdim=1, value=1.0)
+            old.to_file(path)
+            tag("name-used-before")
         with np.errstate(over="ignore"):
             f.to_file(path, representation=rep, extend_scalar=case["extend_scalar"],
                       save_subregions=case["save_subregions"])
